@@ -85,6 +85,23 @@ def run_cases(cases, apis=("validate", "normalized"), driver_ok=True):
     return cases
 
 
+def foreign_keys(jdoc):
+    """does an encoded (common.jval) document hold a mapping key that is neither str nor int?"""
+    if isinstance(jdoc, dict):
+        if "d" in jdoc and isinstance(jdoc["d"], list):
+            for kv in jdoc["d"]:
+                k = kv[0]
+                if isinstance(k, bool) or not isinstance(k, (str, int)):
+                    return True
+                if foreign_keys(kv[1]):
+                    return True
+            return False
+        return any(foreign_keys(v) for v in jdoc.values())
+    if isinstance(jdoc, list):
+        return any(foreign_keys(v) for v in jdoc)
+    return False
+
+
 def compare(r, m, with_doc=True, **kw):
     """None if the real outcome r and the model outcome m agree"""
     if m is None:
